@@ -150,6 +150,9 @@ def gen_wing(rng, hist, ID, afnames, controls, side="both", is_main=False, conne
     if rng.random() < 0.15:
         w["ll_offset"] = r(rng, -0.05, 0.05, 3)
         _tally(hist, "ll_offset", 1)
+    elif isinstance(w.get("sweep"), float) and rng.random() < 0.35:
+        w["ll_offset"] = "kuchemann"            # locus of aerodynamic centres of a swept wing (constant sweep only)
+        _tally(hist, "ll_offset", "kuchemann")
     return w
 
 
